@@ -12,7 +12,9 @@ EXTENDS Probe
 CONSTANTS MaxSteps, SeedSet
 
 O(ps) == Obj(ps, <<>>)
-Seeds == <<
+RECURSIVE Flat2(_)
+Flat2(ss) == IF ss = <<>> THEN <<>> ELSE Head(ss) \o Flat2(Tail(ss))
+HandSeeds == <<
   [env |-> <<>>, ty |-> Uni(<<LS("a"), LS("b"), LS("c")>>)],
   [env |-> <<>>, ty |-> Uni(<<LS("a"), LN("1"), TNull>>)],
   [env |-> <<>>, ty |-> Uni(<<TString, TNumber, TNull>>)],
@@ -65,6 +67,32 @@ Seeds == <<
              [n |-> "Rn", kind |-> "type", ty |-> O(<<Prop("next", Uni(<<Ref("Rn"), TNull>>), FALSE)>>)]>>,
    ty |-> O(<<Prop("a", Ref("Al"), FALSE), Prop("r", Ref("Rn"), FALSE)>>)]
 >>
+
+\* Twin seeds: a type and a near-copy of it (one attribute changed: a literal, an optional mark, a rest element, an index signature,
+\* one member ...) in ONE program, once inline and once with the first of them behind an alias.  Whatever the compiler shares between
+\* equal-looking sub-validators (hoisted constants, dispatch tables, named references) must keep them apart under every rewrite -
+\* introducing, inlining or renaming an alias changes the order in which the two are printed.
+TwinBases == <<
+  O(<<Prop("x", TString, FALSE), Prop("y", TNumber, TRUE)>>),
+  Obj(<<Prop("x", TString, FALSE)>>, <<Ix(TString, TNumber)>>),
+  Obj(<<>>, <<Ix(TString, Uni(<<TString, TNull>>))>>),
+  Tup(<<TString, TNumber>>, <<>>),
+  Tup(<<TString>>, <<TNumber>>),
+  Arr(Uni(<<LS("a"), LS("b")>>)),
+  Uni(<<LS("a"), LN("1"), TNull>>),
+  Uni(<<O(<<Prop("k", LS("x"), FALSE), Prop("v", TString, FALSE)>>), O(<<Prop("k", LS("y"), FALSE), Prop("v", TNumber, FALSE)>>)>>),
+  Inter(<<O(<<Prop("p", TString, FALSE)>>), O(<<Prop("q", TNumber, TRUE)>>)>>),
+  MapT(TString, TNumber),
+  Tpl(<<TpLit("x"), TpNum>>)
+>>
+TwinSeedsOf(T) == LET tw == SetToSeq(Twins(T)) IN
+  Flat2([i \in DOMAIN tw |->
+    << [env |-> <<>>, ty |-> O(<<Prop("a", T, FALSE), Prop("b", tw[i], FALSE)>>)],
+       [env |-> <<[n |-> "Tw", kind |-> "type", ty |-> tw[i]]>>, ty |-> O(<<Prop("a", T, FALSE), Prop("b", Ref("Tw"), FALSE)>>)] >>])
+TwinSeeds == Flat2([i \in DOMAIN TwinBases |-> TwinSeedsOf(TwinBases[i])])
+Seeds == HandSeeds \o TwinSeeds
+NHandSeeds == Len(HandSeeds)
+NSeeds == Len(Seeds)
 
 VARIABLES seed, env, ty, steps, rule, rules
 vars == <<seed, env, ty, steps, rule, rules>>
